@@ -2,6 +2,8 @@
 # Sensitivity experiment: apply a patch to a scratch copy of /repo (outside /repo and
 # /verif), run one property's check against it, delete the copy again.
 # usage: tools/trymut.sh <ID> <patch.diff> [tier] [extra check args]
+# only one experiment at a time: they share the alternative build directory
+exec 9>/tmp/vf_alt.lock; flock 9
 ID=$1; PATCH=$(readlink -f "$2"); TIER=${3:-quick}; shift 3 2>/dev/null
 D=$(mktemp -d /tmp/vfmut.XXXXXX)
 rsync -a --exclude _build --exclude .git /repo/ "$D/"
